@@ -2,7 +2,8 @@
  * The translated module imports wasi.thread-spawn, has a shared memory and an instance-local mutable global, and (unless
  * built with -DNOEXPORT from the variant module) exports wasi_thread_start(tid, arg), which atomically increments the run
  * counter cell[arg] (address 4*arg), stores tid at 256+4*arg and sets the instance-local global to tid.
- * Harness words: one per parent thread, its spawn arguments separated by '.' (all arguments distinct, 1..31).
+ * Harness words: one per parent thread, its spawn arguments separated by '.' (all arguments distinct, 1..31; for arguments >= 20 the
+ * native thread creation fails).
  * Parent thread 1 calls through the root instance, the others through NewChild instances of it.
  * Scheduling points: pthread_create inside wasi.c (renamed), thread start/end, every __atomic builtin (atomic_points.h).
  * Log: "T1 i <k> <arg>" / "T1 r <k> <arg> <returned id as signed>".  End state: per argument run count and recorded tid,
@@ -31,6 +32,7 @@ static void* body(void* a) {
         U32 r;
         if (k > 0) mc_yield();
         mc_obs("i %d %u", k, p->arg[k]);
+        if (p->arg[k] >= 20) mc_fail_next_create();      /* environment: the native thread creation of this spawn fails (EAGAIN) */
         r = m_spawn(p->inst, p->arg[k]);
         mc_obs("r %d %u %d", k, p->arg[k], (int)(I32)r);
     }
